@@ -30,6 +30,13 @@ LIBC_CONSTS = {"MAP_ANONYMOUS": 0x20, "MAP_ANON": 0x20, "MAP_PRIVATE": 2, "MAP_J
                "PROT_EXEC": 4, "_SC_PAGESIZE": 30}
 
 
+# interface layer: methods whose receiver lives in the object graph (the injector, its vectors, the lock,
+# the per-site counter, the back end) are logged effects named by the receiver's source path; result types:
+OPAQUE = None   # set below
+EFFECT_METHODS = {"push": "unit", "clear": "unit", "store": "unit", "pop": "option", "load": "usize", "lock": "opaque",
+                  "into_inner": "opaque", "will_execute_guard": "opaque", "will_return_boolean_guard": "opaque",
+                  "insert": "unit", "truncate": "unit", "swap": "usize", "fetch_add": "usize"}
+
 import re
 IDENT_RE = re.compile(r"^[A-Za-z_][A-Za-z0-9_']*$")
 
@@ -52,6 +59,7 @@ UNIT = Ty("unit")
 LIT = Ty("lit")          # an unsuffixed integer literal whose type is still open
 STR = Ty("str")          # `&str` / `String`: the list of its chars (byte offsets are computed from UTF-8 lengths)
 CHAR = Ty("char")
+OPAQUE = Ty("opaque", "?")
 
 
 class Translator:
@@ -69,6 +77,8 @@ class Translator:
         self.prefix = "Gen"
         self.structs = {}      # name -> [(field, type ast)]
         self.mut_params = {}   # fn name -> indices of `&mut` parameters (returned as extra results)
+        self.iface = False     # interface layer: unknown types are opaque, calls on the object graph are logged effects
+        self.enums = {}        # name -> [(variant, kind, [(field, type ast)])]
 
     # ------------------------------------------------------------------ types
     def int_info(self, name):
@@ -102,6 +112,12 @@ class Translator:
                 return UNIT
             if n == "RangeInclusive" and t[2]:
                 return Ty("range", self.ty(t[2][0][1], generics), True)
+            if self.iface:
+                if n == "Self" and getattr(self, "current_owner", None):
+                    n = self.current_owner
+                if n in self.structs:
+                    return self.struct_ty(n, generics)
+                return Ty("opaque", n)
             raise Unsupported("type " + t[1])
         if k == "tarray":
             return Ty("list", self.ty(t[1], generics), self.const_int(t[2], generics))
@@ -117,7 +133,25 @@ class Translator:
             return Ty("tuple", tuple(self.ty(x, generics) for x in t[1]))
         raise Unsupported("type kind " + k)
 
+    def struct_ty(self, n, generics=None):
+        fields = []
+        for fname, fty in self.structs[n]:
+            try:
+                ft = self.ty(fty, generics)
+            except Unsupported:
+                ft = Ty("opaque", "?")
+            fields.append((fname, ft))
+        return Ty("struct", n, tuple(fields))
+
     def lean_ty(self, t):
+        if t.kind == "opaque":
+            return "Unit"
+        if t.kind == "struct":
+            if not t.b:
+                return "Unit"
+            if len(t.b) == 1:
+                return self.lean_ty(t.b[0][1])
+            return "(" + " × ".join(self.lean_ty(ft) for _, ft in t.b) + ")"
         if t.kind == "int":
             return "Int" if self.int_info(t.a)[0] else "Nat"
         if t.kind == "bool":
@@ -209,6 +243,32 @@ def str_lit(body):
     return "([" + ", ".join(char_lit(x) for x in out) + "] : List Char)"
 
 
+def proj(code, i, n):
+    """i-th component of an n-ary Lean product (right-nested pairs)"""
+    if n == 1:
+        return code
+    if i < n - 1:
+        return f"({code})" + ".2" * i + ".1"
+    return f"({code})" + ".2" * i
+
+
+def path_text(e):
+    """source text of a place expression (`self.lib.guards`, `counter`, `LOCK_FUNCTION`)"""
+    if e[0] == "path":
+        return "::".join(e[1])
+    if e[0] == "field":
+        return path_text(e[1]) + "." + e[2]
+    if e[0] == "paren":
+        return path_text(e[1])
+    if e[0] == "unary" and e[1] in ("&", "&mut", "*"):
+        return path_text(e[2])
+    if e[0] == "method":
+        return path_text(e[1]) + "." + e[2] + "()"
+    if e[0] == "index":
+        return path_text(e[1]) + "[]"
+    return "<expr>"
+
+
 def lit_str(v, signed):
     if signed:
         return f"({v} : Int)" if v >= 0 else f"(-{-v} : Int)"
@@ -261,6 +321,10 @@ class FnCompiler:
             return (str_lit(e[1]), STR)
         if k == "match":
             return self.expr(self.desugar_match(e, cx), cx, want)
+        if k == "structlit":
+            return self.structlit(e, cx)
+        if k == "iflet":
+            return self.iflet_expr(e, cx, want)
         if k == "path":
             return self.path(e, cx, want)
         if k == "unary":
@@ -315,6 +379,13 @@ class FnCompiler:
                 if bt.kind == "tuple" and e[2].isdigit():
                     i = int(e[2])
                     return (f"{bc}.{i + 1}", bt.a[i])
+                if bt.kind == "struct":
+                    names = [f for f, _ in bt.b]
+                    if e[2] in names:
+                        i = names.index(e[2])
+                        return (proj(bc, i, len(names)), bt.b[i][1])
+                if bt.kind == "opaque":
+                    return ("()", OPAQUE)
             raise Unsupported("field access " + e[2])
         if k == "range":
             lo, lt = self.expr(e[1], cx, want.a if want is not None and want.kind == "range" else None) if e[1] else (None, None)
@@ -333,6 +404,39 @@ class FnCompiler:
                     hi = lit_str(int(hi), self.is_signed(t))
             return ((lo, hi, e[3]), Ty("range", t, e[3]))
         raise Unsupported("expression " + k)
+
+    def structlit(self, e, cx):
+        segs, fields, base = e[1], e[2], e[3]
+        name = segs[-1]
+        if name == "Self":
+            name = self.item[1].split("::")[0]
+        if base is not None:
+            raise Unsupported("struct update syntax")
+        if name in self.tr.structs:
+            st = self.tr.struct_ty(name, self.generic_vals)
+            given = dict(fields)
+            parts = []
+            for fname, ft in st.b:
+                if fname not in given:
+                    raise Unsupported("struct literal without field " + fname)
+                c, t = self.expr(given[fname], cx, ft)
+                if t == LIT:
+                    c, t = self.typed(given[fname], cx, ft)
+                if isinstance(c, tuple):
+                    raise Unsupported("range in struct literal")
+                if ft.kind in ("opaque",) or t.kind in ("opaque",):
+                    c = "()"
+                elif t.kind == "list" and t.a is None:
+                    c = f"([] : {self.tr.lean_ty(ft)})"
+                parts.append(c)
+            if not parts:
+                return ("()", st)
+            return (("(" + ", ".join(parts) + ")") if len(parts) != 1 else parts[0], st)
+        if not self.tr.iface:
+            raise Unsupported("struct literal of unknown struct " + name)
+        for _, fe in fields:
+            self.expr(fe, cx)
+        return ("()", Ty("opaque", name))
 
     def typed(self, e, cx, want):
         """expression forced to an integer type `want` when it is an open literal"""
@@ -354,11 +458,21 @@ class FnCompiler:
                 return (f"({self.generic_vals[n]} : Nat)", Ty("int", "usize"))
             if n in tr.consts:
                 t, code, _ = tr.consts[n]
+                if tr.iface and t.kind in ("struct", "opaque") and cx.effectful:
+                    cx.emit(f'Rt.extU "static {n}" []')      # which static object is used (the lock)
                 return (code, t)
             if n in LIBC_CONSTS:
                 return (lit_str(LIBC_CONSTS[n], True), Ty("int", "i32"))
             if n == "MAP_FAILED":
                 return (f"({2 ** tr.ptr_bits - 1} : Nat)", Ty("int", "usize"))
+            if tr.iface and n == "self" and getattr(self, "self_ty", None) is not None:
+                st = self.self_ty
+                if st.kind == "struct":
+                    parts = [cx.env["self." + f][0] for f, _ in st.b]
+                    return (("(" + ", ".join(parts) + ")") if len(parts) != 1 else parts[0], st) if parts else ("()", st)
+                return ("()", st)
+            if tr.iface and (n.isupper() or n == "__opaque"):
+                return ("()", Ty("opaque", n))
             raise Unsupported("unknown name " + n)
         if len(segs) == 2 and segs[0] in INT_TYPES or segs[0] in ("usize", "isize"):
             t = Ty("int", segs[0])
@@ -615,15 +729,33 @@ class FnCompiler:
                     del EXTERNALS["PatchGuard::new"]
         if name in ("null_mut", "null") and not e[2]:
             return ("(0 : Nat)", Ty("int", "usize"))
+        if self.tr.iface:
+            q = "::".join(segs[-2:])
+            if len(segs) >= 2 and segs[-2] == "Self":
+                q = self.item[1].split("::")[0] + "::" + name
+            if len(segs) >= 2 and q in self.tr.fns:
+                return self.internal_call(q, gargs, e[2], cx)
+            if name in ("replace_function_with_other_function", "replace_function_return_boolean"):
+                # the back end (translated in its own configurations): an effect of the interface layer
+                return self.effect(name, e[2], cx, "opaque")
+            if name == "drop" and len(e[2]) == 1:
+                return self.effect("drop", e[2], cx, "unit")
+            if name == "panicking":
+                return self.effect("panicking", [], cx, "bool")
+            if len(segs) >= 2 and segs[-2] == "NonNull" and name == "new" and len(e[2]) == 1:
+                c, t = self.typed(e[2][0], cx, Ty("int", "usize"))
+                return (f"(if {c} == 0 then none else some {c})", Ty("option", Ty("int", "usize")))
+            if len(segs) >= 2 and segs[-2] == "FuncPtrInternal" and name == "new" and len(e[2]) == 1:
+                return self.typed(e[2][0], cx, Ty("int", "usize"))
         if name in EXTERNALS:
             return self.external(name, e[2], cx)
         if len(segs) >= 2 and segs[-2] == "Self" and ("Self::" + name) in self.tr.fns:
             return self.internal_call("Self::" + name, gargs, e[2], cx)
-        if name in self.tr.fns:
+        if name in self.tr.fns and (not self.tr.iface or len(segs) == 1):
             return self.internal_call(name, gargs, e[2], cx)
         raise Unsupported("call of " + "::".join(segs))
 
-    def internal_call(self, name, gargs, args, cx):
+    def internal_call(self, name, gargs, args, cx, self_vals=None):
         gv = []
         for g in gargs:
             if g[0] == "gexpr":
@@ -638,10 +770,11 @@ class FnCompiler:
             lean_name = lean_name + " mode"
         if eff and not cx.effectful:
             raise Unsupported("effectful call from pure function")
-        cargs = []
+        cargs = list(self_vals or [])
         outs = []
         muts = self.tr.mut_params.get(name, [])
-        for i, (a, pt) in enumerate(zip(args, ptys)):
+        nself = len(cargs)
+        for i, (a, pt) in enumerate(zip(args, ptys[nself:])):
             c, t = self.typed(a, cx, pt)
             if not compatible(t, pt):
                 raise Unsupported(f"argument type {t} for {pt}")
@@ -661,20 +794,7 @@ class FnCompiler:
         cx.emit(f"let {pat} ← {lean_name} " + " ".join(cargs))
         return (v if rty != UNIT else "()", rty)
 
-    def external(self, name, args, cx, discard=False):
-        if not cx.effectful:
-            raise Unsupported("external call in pure function")
-        if name == "copy_nonoverlapping" and len(args) == 3 and args[1][0] == "method" and args[1][2] == "as_mut_ptr":
-            # ptr::copy_nonoverlapping(src, buf.as_mut_ptr(), n): the local buffer receives n bytes of memory
-            tgt = args[1][1]
-            if tgt[0] != "path" or len(tgt[1]) != 1 or tgt[1][0] not in cx.env:
-                raise Unsupported("copy into a non-local buffer")
-            ln, t = cx.env[tgt[1][0]]
-            src, st = self.typed(args[0], cx, Ty("int", "usize"))
-            n, nt = self.typed(args[2], cx, Ty("int", "usize"))
-            v = cx.bind(f'Rt.extB "read_bytes" [Rt.Val.n (Int.ofNat {src}), Rt.Val.n (Int.ofNat {n})]', "read")
-            cx.let(ln, v)
-            return ("()", UNIT)
+    def logged_args(self, args, cx):
         vals = []
         for a in args:
             try:
@@ -692,8 +812,73 @@ class FnCompiler:
                 vals.append(f"Rt.Val.n (Int.ofNat (Rt.ofBool {c}))")
             else:
                 vals.append("Rt.Val.n 0")
+        return "[" + ", ".join(vals) + "]"
+
+    def effect(self, name, args, cx, kind, discard=False):
+        """a logged call on the object graph (interface layer); `kind` says what comes back"""
+        if not cx.effectful:
+            raise Unsupported("effect in pure function")
+        al = self.logged_args(args, cx)
+        if discard or kind in ("unit", "opaque"):
+            cx.emit(f'Rt.extU "{name}" {al}')
+            return ("()", UNIT if kind == "unit" else OPAQUE)
+        if kind == "usize":
+            return (cx.bind(f'Rt.extN "{name}" {al}', "eff"), Ty("int", "usize"))
+        if kind == "bool":
+            v = cx.bind(f'Rt.extN "{name}" {al}', "eff")
+            return (f"({v} != 0)", BOOL)
+        if kind == "option":
+            return (cx.bind(f'Rt.extO "{name}" {al}', "eff"), Ty("option", OPAQUE))
+        raise Unsupported("effect kind " + kind)
+
+    def owner_of(self, recv, cx):
+        """name of the struct / enum a receiver expression has (for `recv.method()` on an internal method)"""
+        if recv[0] == "path" and recv[1] == ["self"]:
+            return self.item[1].split("::")[0], None
+        try:
+            probe = cx.child()
+            c, t = self.expr(recv, probe)
+        except Unsupported:
+            return None, None
+        if probe.lines and all(l.startswith('Rt.extU "static ') for l in probe.lines):
+            for l in probe.lines:
+                cx.emit(l)
+        elif probe.lines:
+            return None, None
+        if t.kind == "struct":
+            return t.a, (c, t)
+        if t.kind == "opaque":
+            return t.a, (c, t)
+        return None, None
+
+    def self_args(self, owner, val, cx):
+        """the arguments that stand for `self` at a call of an internal method of `owner`"""
+        if owner not in self.tr.structs:
+            return []
+        st = self.tr.struct_ty(owner, self.generic_vals)
+        if val is None:
+            return [cx.env["self." + f][0] for f, _ in st.b]
+        c, t = val
+        if t.kind != "struct":
+            return ["()" for _ in st.b]
+        return [proj(c, i, len(st.b)) for i in range(len(st.b))]
+
+    def external(self, name, args, cx, discard=False):
+        if not cx.effectful:
+            raise Unsupported("external call in pure function")
+        if name == "copy_nonoverlapping" and len(args) == 3 and args[1][0] == "method" and args[1][2] == "as_mut_ptr":
+            # ptr::copy_nonoverlapping(src, buf.as_mut_ptr(), n): the local buffer receives n bytes of memory
+            tgt = args[1][1]
+            if tgt[0] != "path" or len(tgt[1]) != 1 or tgt[1][0] not in cx.env:
+                raise Unsupported("copy into a non-local buffer")
+            ln, t = cx.env[tgt[1][0]]
+            src, st = self.typed(args[0], cx, Ty("int", "usize"))
+            n, nt = self.typed(args[2], cx, Ty("int", "usize"))
+            v = cx.bind(f'Rt.extB "read_bytes" [Rt.Val.n (Int.ofNat {src}), Rt.Val.n (Int.ofNat {n})]', "read")
+            cx.let(ln, v)
+            return ("()", UNIT)
+        al = self.logged_args(args, cx)
         ret = EXTERNALS[name][0]
-        al = "[" + ", ".join(vals) + "]"
         if ret is None or discard:
             cx.emit(f'Rt.extU "{name}" {al}')
             return ("()", UNIT)
@@ -705,6 +890,9 @@ class FnCompiler:
             return (cx.bind(f'Rt.extI "{name}" {al}', name), Ty("int", "i64"))
         if ret == "bytes":
             return (cx.bind(f'Rt.extB "{name}" {al}', name), Ty("list", Ty("int", "u8"), None))
+        if ret == "bool":
+            v = cx.bind(f'Rt.extN "{name}" {al}', name)
+            return (f"({v} != 0)", BOOL)
         raise Unsupported("external " + name)
 
     def method(self, e, cx, want):
@@ -712,6 +900,19 @@ class FnCompiler:
         # iterator chains are handled where they are consumed
         if name == "fold":
             return self.fold(e, cx, want)
+        if self.tr.iface:
+            owner, val = self.owner_of(recv, cx)
+            if owner is not None and f"{owner}::{name}" in self.tr.fns:
+                return self.internal_call(f"{owner}::{name}", gargs, args, cx, self_vals=self.self_args(owner, val, cx))
+            if name in EFFECT_METHODS:
+                return self.effect(path_text(recv) + "." + name, args, cx, EFFECT_METHODS[name])
+            if name == "expect" and len(args) == 1:
+                c, t = self.expr(recv, cx)
+                if t.kind == "option":
+                    msg = args[0][1][:40].replace('"', "") if args[0][0] == "str" else "expect"
+                    pn = f'Rt.panicNow "{msg}"' if cx.effectful else f'Res.panic "{msg}"'
+                    v = self.tr.fresh("v")
+                    return (cx.bind(f"(match {c} with\n| some {v} => pure {v}\n| none => {pn})"), t.a)
         if name in ("as_ptr", "as_mut_ptr", "iter", "to_vec", "clone", "cast", "as_slice"):
             c, t = self.expr(recv, cx, want)
             if name == "to_vec" and t.kind == "list":
@@ -1084,7 +1285,7 @@ class FnCompiler:
                 s = ("expr", e, s[2], s[3])
             rest = sts[idx + 1:]
             last = not any(rsparse.attrs_enabled(r[-1], self.tr.cfg) for r in rest)
-            if e[0] == "iflet":
+            if e[0] == "iflet" and (self.contains_return(e) or self.contains_panic(e)):
                 els = [] if e[4] is None else ([("expr", e[4], False, [])] if e[4][0] in ("if", "iflet") else self.enabled(e[4]))
                 return self.iflet_final(e[1], e[2], self.enabled(e[3]), els, rest, cx)
             if e[0] == "for" and self.contains_return(e):
@@ -1119,6 +1320,8 @@ class FnCompiler:
                 return
             if e[0] == "while":
                 return self.while_final(e, rest, cx)
+            if e[0] == "whilelet":
+                return self.whilelet_final(e, rest, cx)
             if last and not s[2] and e[0] not in ("for", "while", "assign"):
                 # trailing expression: the value of the block
                 if self.ret_ty == UNIT or e[0] in ("if",) and e[3] is None:
@@ -1182,12 +1385,22 @@ class FnCompiler:
             raise Unsupported("match guard")
         blk = lambda b: b if b[0] == "block" else ("block", [], b, [])
         pats = [p for p, _, _ in arms]
-        if any(p[0] == "pctor" for p in pats):
+        if any(p[0] in ("pctor", "pstruct") for p in pats):
             some = [a for a in arms if a[0][0] == "pctor" and a[0][1][-1] == "Some"]
             none = [a for a in arms if (a[0][0] == "pctor" and a[0][1][-1] == "None") or a[0][0] == "pwild"]
-            if len(arms) != 2 or len(some) != 1 or len(none) != 1:
-                raise Unsupported("match on constructors")
-            return ("iflet", some[0][0], scrut, blk(some[0][2]), blk(none[0][2]))
+            if len(arms) == 2 and len(some) == 1 and len(none) == 1:
+                return ("iflet", some[0][0], scrut, blk(some[0][2]), blk(none[0][2]))
+            if self.tr.iface and len(arms) == 2 and arms[0][0][0] in ("pctor", "pstruct"):
+                # two constructors of an opaque value (Ok / Err, two enum variants): the first arm or the other
+                second = arms[1]
+                if second[0][0] in ("pctor", "pstruct") and pat_names(second[0]):
+                    # names bound by the second arm are opaque there
+                    body2 = ("block", [("let", ("pid", n, False, False), None, ("path", ["__opaque"], []), []) for n in pat_names(second[0])], second[2], [])
+                    if second[2][0] == "block":
+                        body2 = ("block", body2[1] + second[2][1], second[2][2], [])
+                    return ("iflet", arms[0][0], scrut, blk(arms[0][2]), body2)
+                return ("iflet", arms[0][0], scrut, blk(arms[0][2]), blk(second[2]))
+            raise Unsupported("match on constructors")
 
         def cond(p):
             if p[0] == "plit":
@@ -1218,8 +1431,52 @@ class FnCompiler:
             return q[1]
         raise Unsupported("nested pattern")
 
+    def opaque_pattern(self, pat, scrut, t, cx, tcx):
+        """`if let Ctor { a, b } = <opaque value>`: the oracle says whether the pattern matches; fields of a
+        known enum variant with an integer type come from the oracle too, the others are opaque.
+        Returns the Lean condition; binds the names in tcx."""
+        if pat[0] not in ("pctor", "pstruct"):
+            raise Unsupported("pattern on an opaque value")
+        ctor = "::".join(pat[1])
+        k = cx.bind(f'Rt.extN "matches {ctor}" []', "is")
+        ftys = {}
+        en = self.tr.enums.get(pat[1][0] if len(pat[1]) > 1 else (t.a if t.kind == "opaque" else None))
+        if en:
+            for vname, kind, vfields in en:
+                if vname == pat[1][-1]:
+                    ftys = dict(vfields)
+        subs = [(str(i), q) for i, q in enumerate(pat[2])] if pat[0] == "pctor" else pat[2]
+        for fname, q in subs:
+            if q[0] == "pwild":
+                continue
+            if q[0] != "pid":
+                raise Unsupported("nested pattern")
+            ft = None
+            if fname in ftys:
+                try:
+                    ft = self.tr.ty(ftys[fname], self.generic_vals)
+                except Unsupported:
+                    ft = None
+            if ft is not None and ft.kind == "int" and not self.is_signed(ft):
+                v = tcx.bind(f'Rt.extN "field {fname}" []', lean_ident(q[1]))
+                tcx.env[q[1]] = (v, ft)
+            elif ft is not None and ft == BOOL:
+                v = tcx.bind(f'Rt.extN "field {fname}" []', lean_ident(q[1]))
+                tcx.env[q[1]] = (f"({v} != 0)", BOOL)
+            else:
+                tcx.env[q[1]] = ("()", OPAQUE)
+        return f"({k} != 0)"
+
     def iflet_final(self, pat, scrut, then_sts, else_sts, rest, cx):
         c, t = self.expr(scrut, cx)
+        if t.kind in ("opaque", "unit") and self.tr.iface:
+            tcx = cx.child()
+            cond = self.opaque_pattern(pat, scrut, t, cx, tcx)
+            self.final(then_sts + rest, tcx)
+            ecx = cx.child()
+            self.final(else_sts + rest, ecx)
+            cx.emit(f"if {cond} then (do\n{self.render(tcx.lines, 2)}) else (do\n{self.render(ecx.lines, 2)})")
+            return
         name = self.option_pattern(pat, t)
         tcx = cx.child()
         ln = lean_ident(name) if name else "_"
@@ -1229,6 +1486,32 @@ class FnCompiler:
         ecx = cx.child()
         self.final(else_sts + rest, ecx)
         cx.emit(f"match {c} with\n| some {ln} => (do\n{self.render(tcx.lines, 2)})\n| none => (do\n{self.render(ecx.lines, 2)})")
+
+    def iflet_expr(self, e, cx, want):
+        """`if let P = x { a } else { b }` as a value (both branches are expressions)"""
+        pat, scrut, tb, eb = e[1], e[2], e[3], e[4]
+        if eb is None:
+            raise Unsupported("if-let expression without else")
+        c, t = self.expr(scrut, cx)
+        tcx = cx.child()
+        if t.kind in ("opaque", "unit") and self.tr.iface:
+            cond = self.opaque_pattern(pat, scrut, t, cx, tcx)
+            head, mid = f"(if {cond} then (do", ") else (do"
+        else:
+            name = self.option_pattern(pat, t)
+            ln = lean_ident(name) if name else "_"
+            if name:
+                tcx.env[name] = (ln, t.a)
+            head, mid = f"(match {c} with\n| some {ln} => (do", ")\n| none => (do"
+        tv, tt = self.block_value(tb, tcx, want)
+        ecx = cx.child()
+        ebb = eb if eb[0] == "block" else ("block", [], eb, [])
+        ev, et = self.block_value(ebb, ecx, want if tt == LIT else tt)
+        if tt != et and not (tt.kind == et.kind == "opaque"):
+            raise Unsupported(f"if-let branches differ: {tt} vs {et}")
+        tb_ = self.render(tcx.lines + [f"pure {tv}"], 2)
+        eb_ = self.render(ecx.lines + [f"pure {ev}"], 2)
+        return (cx.bind(f"{head}\n{tb_}{mid}\n{eb_}))"), tt)
 
     def iter_list(self, it, cx):
         """the list a `for` loop runs over: (lean term, element type)"""
@@ -1324,6 +1607,55 @@ class FnCompiler:
         v = self.tr.fresh("v")
         cx.emit(f"match {ro} with\n| some {v} => {self.ret(v)}\n| none => (do\n{self.render(rcx.lines, 2)})")
 
+    def whilelet_final(self, e, rest, cx):
+        """`while let Some(x) = <expr> { body }`: a fuel-bounded recursive helper; the scrutinee is evaluated
+        (an effect, typically `pop()`) at the head of every round"""
+        pat, scrut, body = e[1], e[2], e[3]
+        bst = self.enabled(body)
+        mv = [n for n in self.assigned_vars(bst, None, set(pat_names(pat))) if n in cx.env]
+        used = names_used(e)
+        caps = [n for n in cx.env if n in used and n not in mv and not isinstance(cx.env[n][0], tuple) and cx.env[n][1].kind != "range"
+                and IDENT_RE.match(cx.env[n][0])]
+        self.nloops += 1
+        self.needs_fuel = True
+        lname = f"{self.lean_name}_loop{self.nloops}"
+        if mv:
+            tup = "(" + ", ".join(cx.env[n][0] for n in mv) + ")" if len(mv) != 1 else cx.env[mv[0]][0]
+            sty = "(" + " × ".join(self.tr.lean_ty(cx.env[n][1]) for n in mv) + ")" if len(mv) != 1 else self.tr.lean_ty(cx.env[mv[0]][1])
+        else:
+            tup, sty = "()", "Unit"
+        capsig = " ".join(f"({cx.env[n][0]} : {self.tr.lean_ty(cx.env[n][1])})" for n in caps)
+        capargs = " ".join(cx.env[n][0] for n in caps)
+        mon = "Rt.M" if self.effectful else "Res"
+        rty = self.tr.lean_ty(self.ret_ty)
+        sub = cx.child()
+        c, t = self.expr(scrut, sub)
+        name = self.option_pattern(pat, t)
+        bcx = sub.child()
+        ln = lean_ident(name) if name else "_"
+        if name:
+            bcx.env[name] = (ln if t.a.kind != "opaque" else "()", t.a)
+        old_ret, old_fall = self.ret, self.fall
+        self.ret = lambda cc: f"pure (some {cc}, {tup})"
+        self.fall = lambda: f"{lname} mode {capargs} fuel {tup}"
+        try:
+            self.final(bst, bcx)
+        finally:
+            self.ret, self.fall = old_ret, old_fall
+        fuel_panic = 'Rt.panicNow "fuel"' if self.effectful else 'Res.panic "fuel"'
+        hdr = [f"let {tup} := st"] if mv else []
+        lines = hdr + sub.lines + [f"match {c} with\n| some {ln} => (do\n{self.render(bcx.lines, 2)})\n| none => pure (none, {tup})"]
+        text = (f"def {lname} (mode : Mode) {capsig} : Nat → {sty} → {mon} (Option {rty} × {sty})\n"
+                f"  | 0, _ => {fuel_panic}\n"
+                f"  | fuel + 1, st => do\n" + self.render(lines, 2) + "\n")
+        self.tr.aux.append(text)
+        ro = self.tr.fresh("ret")
+        cx.emit(f"let ({ro}, {tup if mv else '_'}) ← {lname} mode {capargs} fuel {tup}")
+        rcx = cx.child()
+        self.final(rest, rcx)
+        v = self.tr.fresh("v")
+        cx.emit(f"match {ro} with\n| some {v} => {self.ret(v)}\n| none => (do\n{self.render(rcx.lines, 2)})")
+
     def diverging_block(self, b, cx):
         """compile a block that ends in return/panic; returns its final line"""
         if b[0] == "unsafe":
@@ -1362,6 +1694,20 @@ class FnCompiler:
             cx.env[pat[1]] = (ln, t)
         elif pat[0] == "pwild":
             pass
+        elif pat[0] == "ptuple" and t.kind == "tuple" and len(pat[1]) == len(t.a) and not isinstance(c, tuple):
+            tmp = self.tr.fresh("tup")
+            cx.let(tmp, c)
+            for i, (q, qt) in enumerate(zip(pat[1], t.a)):
+                if q[0] == "pwild":
+                    continue
+                if q[0] != "pid":
+                    raise Unsupported("nested let pattern")
+                ln = lean_ident(q[1])
+                if qt.kind in ("opaque",):
+                    cx.env[q[1]] = ("()", qt)
+                else:
+                    cx.let(ln, proj(tmp, i, len(t.a)))
+                    cx.env[q[1]] = (ln, qt)
         else:
             raise Unsupported("let pattern")
 
@@ -1466,6 +1812,14 @@ class FnCompiler:
 
     def method_stmt(self, e, cx):
         recv, name, args = e[1], e[2], e[4]
+        if self.tr.iface:
+            owner, val = self.owner_of(recv, cx)
+            if owner is not None and f"{owner}::{name}" in self.tr.fns:
+                self.internal_call(f"{owner}::{name}", e[3], args, cx, self_vals=self.self_args(owner, val, cx))
+                return
+            if name in EFFECT_METHODS:
+                self.effect(path_text(recv) + "." + name, args, cx, EFFECT_METHODS[name], discard=True)
+                return
         # slice.copy_from_slice
         if name == "copy_from_slice" and recv[0] == "index" and recv[2][0] == "range":
             base = recv[1]
@@ -1551,7 +1905,8 @@ class FnCompiler:
         """`if let Some(x) = o { .. } else { .. }` in statement position, no return inside"""
         pat, scrut, tb, eb = e[1], e[2], e[3], e[4]
         c, t = self.expr(scrut, cx)
-        name = self.option_pattern(pat, t)
+        opaque = t.kind in ("opaque", "unit") and self.tr.iface
+        name = None if opaque else self.option_pattern(pat, t)
         tst = self.enabled(tb)
         mv = self.assigned_vars(tst, None)
         est = []
@@ -1568,12 +1923,16 @@ class FnCompiler:
         ln = lean_ident(name) if name else "_"
         if name:
             tcx.env[name] = (ln, t.a)
+        cond = self.opaque_pattern(pat, scrut, t, cx, tcx) if opaque else None
         self.stmts(tst, None, tcx, None, False)
         ecx = cx.child()
         self.stmts(est, None, ecx, None, False)
         t_txt = self.render(tcx.lines + [f"pure {tup}"], 2)
         e_txt = self.render(ecx.lines + [f"pure {tup}"], 2)
-        m = f"(match {c} with\n| some {ln} => (do\n{t_txt})\n| none => (do\n{e_txt}))"
+        if opaque:
+            m = f"(if {cond} then (do\n{t_txt}) else (do\n{e_txt}))"
+        else:
+            m = f"(match {c} with\n| some {ln} => (do\n{t_txt})\n| none => (do\n{e_txt}))"
         if not mv:
             cx.emit(m)
         else:
@@ -1691,6 +2050,10 @@ def pat_names(p):
         return pat_names(p[1])
     if p[0] == "ptuple":
         return [n for q in p[1] for n in pat_names(q)]
+    if p[0] == "pctor":
+        return [n for q in p[2] for n in pat_names(q)]
+    if p[0] == "pstruct":
+        return [n for _, q in p[2] for n in pat_names(q)]
     return []
 
 
@@ -1766,6 +2129,15 @@ def _compile_fn(tr, name, item, gv):
         raise Unsupported("generic arity")
     gvals = dict(zip(gnames, gv))
     fc = FnCompiler(tr, name, item, gvals)
+    saved_owner = getattr(tr, "current_owner", None)
+    tr.current_owner = item[1].split("::")[0] if "::" in item[1] else None
+    try:
+        return _compile_fn2(tr, name, item, gv, fc, gvals, params, ret, body)
+    finally:
+        tr.current_owner = saved_owner
+
+
+def _compile_fn2(tr, name, item, gv, fc, gvals, params, ret, body):
     eff = uses_external(tr, body, set())
     fc.effectful = eff
     cx = Ctx(tr, {}, name, gvals, eff)
@@ -1776,8 +2148,14 @@ def _compile_fn(tr, name, item, gv):
         n = fc.pat_name(p)
         if n == "self":
             owner = item[1].split("::")[0]
+            if owner not in tr.structs and tr.iface:
+                fc.self_ty = Ty("opaque", owner)
+                cx.env["self"] = ("()", fc.self_ty)
+                continue
             if owner not in tr.structs:
                 raise Unsupported("self of unknown struct " + owner)
+            if tr.iface:
+                fc.self_ty = tr.struct_ty(owner, gvals)
             for fname, fty in tr.structs[owner]:
                 ft = tr.ty(fty, gvals)
                 ln = "self_" + fname
@@ -1828,6 +2206,22 @@ def _compile_fn(tr, name, item, gv):
 def uses_external(tr, node, seen):
     """does the body (transitively) call an external?"""
     if isinstance(node, tuple):
+        if tr.iface and node and node[0] == "method":
+            if node[2] in EFFECT_METHODS:
+                return True
+            for k, it in list(tr.fns.items()):
+                if "::" in k and k.endswith("::" + node[2]) and id(it) not in seen and it[0] == "fn":
+                    seen.add(id(it))
+                    if uses_external(tr, it[4], seen):
+                        return True
+        if tr.iface and node and node[0] == "call" and node[1][0] == "path" and node[1][1][-1] in ("drop", "panicking", "replace_function_with_other_function", "replace_function_return_boolean"):
+            return True
+        if tr.iface and node and node[0] == "call" and node[1][0] == "path" and len(node[1][1]) >= 2:
+            q = "::".join(node[1][1][-2:])
+            if q in tr.fns and id(tr.fns[q]) not in seen and tr.fns[q][0] == "fn":
+                seen.add(id(tr.fns[q]))
+                if uses_external(tr, tr.fns[q][4], seen):
+                    return True
         if node and node[0] == "macro" and node[1].split("::")[-1] == "asm":
             return True
         if node and node[0] == "call" and node[1][0] == "path":
